@@ -23,6 +23,11 @@ fn main() {
     let cmd = args.get(1).map(|s| s.as_str()).unwrap_or("");
     let code = match cmd {
         "check" => {
+            // minimisation re-executes candidates in this process: a candidate that spins ends it
+            driver::start_watchdog(|task, steps| {
+                eprintln!("HARNESS ERROR: a candidate execution is spinning in task {} after step {} (not minimised further)", task, steps);
+                std::process::exit(2);
+            });
             let id = args.get(2).expect("property id");
             let tier = tier_of(args.get(3).map(|s| s.as_str()).or(std::env::var("VERIF_TIER").ok().as_deref()).unwrap_or("quick"));
             driver::check(id, tier)
